@@ -119,6 +119,8 @@ def zint(x):
         return z3.IntVal(1 if x else 0)
     if isinstance(x, int):
         return z3.IntVal(x)
+    if z3.is_expr(x) and z3.is_int(x):
+        return x
     raise Unsupported(f'not an integer: {x!r}')
 
 
@@ -133,6 +135,8 @@ def zbool(x):
         return z3.BoolVal(x != 0)
     if x is None:
         return z3.BoolVal(False)
+    if z3.is_expr(x) and z3.is_bool(x):
+        return x
     raise Unsupported(f'not a boolean: {x!r}')
 
 
@@ -151,6 +155,10 @@ def zreal(x):
         from fractions import Fraction
         fr = Fraction(x)
         return z3.RealVal(str(fr.numerator)) / z3.RealVal(str(fr.denominator))
+    if z3.is_expr(x) and z3.is_real(x):
+        return x
+    if z3.is_expr(x) and z3.is_int(x):
+        return z3.ToReal(x)
     raise Unsupported(f'not a real: {x!r}')
 
 
@@ -626,7 +634,7 @@ class Obligation:
 
 
 class Ctx:
-    def __init__(self, prefix=(), check_feasible=True, rlimit=2_000_000):
+    def __init__(self, prefix=(), check_feasible=True, rlimit=20_000_000):
         self.prefix = list(prefix)
         self.trail: list[bool] = []
         self.free: list[bool] = []       # was decision i a free choice?
@@ -759,7 +767,7 @@ class ExploreResult:
     wall: float = 0.0
 
 
-def explore(scenario: Callable[[Ctx], Any], max_paths=20000, rlimit=2_000_000) -> ExploreResult:
+def explore(scenario: Callable[[Ctx], Any], max_paths=20000, rlimit=20_000_000) -> ExploreResult:
     """Run ``scenario(ctx)`` once per feasible decision sequence."""
     global CTX
     res = ExploreResult()
